@@ -90,6 +90,14 @@ Fixpoint raw (e : exp) : list token :=
 
 Definition print (e : exp) : list token := raw e.
 
+(* a comma-separated expression list (the inner loop of [raw] for call arguments) *)
+Fixpoint raw_args (l : list exp) : list token :=
+  match l with
+  | [] => []
+  | [a] => raw a
+  | a :: rest => raw a ++ TComma :: raw_args rest
+  end.
+
 (* '...' as the head of a prefix expression is necessarily written (...), which
    the parser keeps as a node *)
 Definition ntarget (t nt : exp) : exp := match t with EEtc => EParen EEtc | _ => nt end.
